@@ -127,27 +127,35 @@ func c15dispatch(c *an.Ctx) {
 	c.Check(found, ioloop, "fatal error closes, non-fatal continues", execCall.Pos(), "", "IOLoop does not leave the loop exactly when Exec's error is a *FatalClientErr")
 	// Handle: magic "  V1"
 	v1ok := false
-	an.Instrs(handle, func(in ssa.Instruction) {
-		b, ok := in.(*ssa.BinOp)
-		if !ok || b.Op != token.EQL {
-			return
-		}
-		if s, ok := an.ConstString(b.Y); ok && s == "  V1" {
-			for _, t := range an.BoolTests(b) {
-				q := &an.PathQ{Fn: handle, StartEntry: true,
-					Sink:    func(in ssa.Instruction, _ *an.PathState) bool { return isInvokeOn(in, "Protocol", "IOLoop", nil) },
-					CutEdge: func(e an.Edge, _ *an.PathState) bool { return e == t.True }}
-				if _, f := q.Find(); !f {
-					q3 := &an.PathQ{Fn: handle, StartEdges: []an.Edge{t.False}, Sink: an.IsReturn, Cut: func(in ssa.Instruction, _ *an.PathState) bool {
-						return isInvokeOn(in, "Conn", "Close", nil)
-					}}
-					if _, f3 := q3.Find(); !f3 {
-						v1ok = true
-					}
+	magicIs := func(op token.Token) func(an.Fact) bool {
+		return func(f an.Fact) bool {
+			cmp, ok := f.AsCmp()
+			if !ok || cmp.Op != op {
+				return false
+			}
+			for _, v := range []ssa.Value{cmp.X, cmp.Y} {
+				if s, ok := an.ConstString(v); ok && s == "  V1" {
+					return true
 				}
 			}
+			return false
 		}
-	})
+	}
+	isV1 := edgesWhere(handle, magicIs(token.EQL))
+	notV1 := edgesWhere(handle, magicIs(token.NEQ))
+	if len(isV1) > 0 && len(notV1) > 0 {
+		q := &an.PathQ{Fn: handle, StartEntry: true,
+			Sink:    func(in ssa.Instruction, _ *an.PathState) bool { return isInvokeOn(in, "Protocol", "IOLoop", nil) },
+			CutEdge: func(e an.Edge, _ *an.PathState) bool { return an.EdgeIn(e, isV1) }}
+		if _, f := q.Find(); !f {
+			q3 := &an.PathQ{Fn: handle, StartEdges: notV1, Sink: an.IsReturn, Cut: func(in ssa.Instruction, _ *an.PathState) bool {
+				return isInvokeOn(in, "Conn", "Close", nil)
+			}}
+			if _, f3 := q3.Find(); !f3 {
+				v1ok = true
+			}
+		}
+	}
 	c.Check(v1ok, handle, "bad magic => close without entering the protocol loop", handle.Pos(), "", "a connection with a magic other than \"  V1\" reaches the protocol loop or is not closed")
 }
 
